@@ -95,6 +95,8 @@ var shapes = map[string]*shape{
 	"HasMapS":      stc("map", fd("M", mpo(shSimple))),
 	"Swapped":      stc("map", fd("Src", shStr).as("Dst"), fd("Dst", shStr).as("Src")),
 	"Chain":        stc("map", fd("A", shStr).as("B"), fd("B", shStr).as("C"), fd("C", shStr).as("A")),
+	"Clash":        stc("map", fd("A", stc("map", fd("N", shInt))), fd("B", stc("map", fd("N", shInt), fd("M", shStr)))),
+	"BigU":         stc("map", fd("U", shInt), fd("L", lst(shInt, false)), fd("N", lst(lst(shInt, false), false))),
 	"pk1.Foo":      stc("map", fd("A", shStr), fd("N", shInt)),
 	"pk2.Foo":      stc("map", fd("X", shBool), fd("L", lst(shInt, false))),
 }
@@ -114,7 +116,7 @@ func expectV(v reflect.Value, sh *shape, repr bool) *model.V {
 	case "int":
 		switch v.Kind() {
 		case reflect.Uint, reflect.Uint8, reflect.Uint16, reflect.Uint32, reflect.Uint64:
-			return model.IntV(int64(v.Uint()))
+			return model.UintV(v.Uint())
 		}
 		return model.IntV(v.Int())
 	case "bool":
